@@ -102,4 +102,7 @@ Depth(v) == CASE v.t = "a" -> 1 + MaxDepth(v.v, 1)
 \* evaluation results
 Ok(v) == [ok |-> TRUE, v |-> v]
 Err == [ok |-> FALSE, v |-> Null]
+\* an error whose variant of the public error enumeration (src/error.rs) the specification names:
+\* the name travels in v as a string; Err (v = null) leaves the variant open
+ErrK(kind) == [ok |-> FALSE, v |-> Str(kind)]
 =============================================================================
